@@ -1,55 +1,51 @@
 #!/bin/bash
 # tools/seed_verify.sh <ID> <demo-package-dir> [check-id] [name]
-# Confirms a seeded change produced by an independent sub-agent in /tmp/seed/<ID> (worktree with the
-# change applied, deliverables in /tmp/seed/<ID>.out): suite green with it, demo fails with it and
-# passes without it; then runs ./check against the changed worktree and files everything under seeded/.
+# Confirms a seeded change produced by an independent sub-agent (deliverables in /tmp/seed/<ID>.out:
+# patch.diff, a *_test.go demonstration, notes.md) on a fresh scratch copy of /repo (no git state is
+# shared with the agents): suite green with the change, demo fails with it and passes without it; then
+# runs ./check against the changed copy and files everything under seeded/<name>/.
 set -u
 ID=$1; DIR=$2; CHK=${3:-$ID}; NAME=${4:-$ID}
-W=/tmp/seed/$ID; O=/tmp/seed/$ID.out
+O=/tmp/seed/$ID.out
+W=/tmp/seedv/$ID
 ROOT=$(cd "$(dirname "$0")/.." && pwd)
 export GOFLAGS=-mod=mod GOPROXY=off
-cd $W || exit 2
-git diff > /tmp/seed/$ID.patch
-[ -s /tmp/seed/$ID.patch ] || { echo "no change in worktree"; exit 2; }
+[ -s $O/patch.diff ] || { echo "no patch.diff"; exit 2; }
 DEMO=$(ls $O/*_test.go 2>/dev/null | head -1)
 [ -n "$DEMO" ] || { echo "no demo test"; exit 2; }
+rm -rf $W; mkdir -p $W; rsync -a --exclude .git /repo/ $W/
+cd $W
+git apply --whitespace=nowarn $O/patch.diff || { echo "patch does not apply"; rm -rf $W; exit 2; }
 TAGS=""; grep -q "tags verif" $DEMO $O/notes.md 2>/dev/null && TAGS="-tags verif"
-echo "--- suite with the change"; go build ./... && go test -count=1 ./... 2>&1 | grep -v "^ok\|no test files" | head -5; SUITE=${PIPESTATUS[0]}
-go test -count=1 ./... >/dev/null 2>&1; SUITE=$?
+RACE=""; grep -q -- "-race" $DEMO $O/notes.md 2>/dev/null && RACE="-race"
+go build ./... && go test -count=1 ./... >/tmp/seedv/$ID.suite.log 2>&1; SUITE=$?
 cp $DEMO $W/$DIR/zz_seed_demo_test.go
-echo "--- demo with the change (expect FAIL)"; go test $TAGS -count=1 -run 'Demo' ./$DIR/ >/tmp/seed/$ID.with.log 2>&1; WITH=$?; tail -3 /tmp/seed/$ID.with.log
+go test $TAGS $RACE -count=1 -run 'Demo' ./$DIR/ >/tmp/seedv/$ID.with.log 2>&1; WITH=$?
+git apply -R --whitespace=nowarn $O/patch.diff
+go test $TAGS $RACE -count=1 -run 'Demo' ./$DIR/ >/tmp/seedv/$ID.without.log 2>&1; WITHOUT=$?
 rm $W/$DIR/zz_seed_demo_test.go
-git stash -q
-cp $DEMO $W/$DIR/zz_seed_demo_test.go
-echo "--- demo without the change (expect ok)"; go test $TAGS -count=1 -run 'Demo' ./$DIR/ >/tmp/seed/$ID.without.log 2>&1; WITHOUT=$?; tail -2 /tmp/seed/$ID.without.log
-rm $W/$DIR/zz_seed_demo_test.go
-git stash pop -q
+git apply --whitespace=nowarn $O/patch.diff
 echo "suite_rc=$SUITE demo_with_rc=$WITH demo_without_rc=$WITHOUT"
+[ $WITHOUT -ne 0 ] && tail -5 /tmp/seedv/$ID.without.log
 cd $ROOT
-VERIF_REPO=$W ./check $CHK > /tmp/seed/$ID.check.log 2>&1; CRC=$?
-grep -E "unlisted|VIOLATION|INFRA" /tmp/seed/$ID.check.log | head -4
+VERIF_REPO=$W ./check $CHK > /tmp/seedv/$ID.check.log 2>&1; CRC=$?
+grep -E "unlisted|VIOLATION|INFRA" /tmp/seedv/$ID.check.log | head -4
 echo "check_rc=$CRC"
 if [ $SUITE -eq 0 ] && [ $WITH -ne 0 ] && [ $WITHOUT -eq 0 ]; then
   mkdir -p seeded/$NAME
-  cp /tmp/seed/$ID.patch seeded/$NAME/patch.diff
+  cp $O/patch.diff seeded/$NAME/patch.diff
   cp $DEMO seeded/$NAME/$(basename $DEMO)
   cp $O/notes.md seeded/$NAME/notes.md 2>/dev/null
-  python3 - "$NAME" "$CHK" "$DIR" "$CRC" "$TAGS" <<'PY'
-import json,sys,subprocess
-name,chk,d,crc,tags=sys.argv[1:6]
-log=open('/tmp/seed/%s.check.log'%name.split('-')[0] if False else '/tmp/seed/%s.check.log'%sys.argv[1].split('_')[0]).read() if False else ""
-PY
-  python3 - "$ID" "$NAME" "$CHK" "$DIR" "$CRC" "$TAGS" <<'PY'
+  python3 - "$ID" "$NAME" "$CHK" "$DIR" "$CRC" "$TAGS $RACE" <<'PY'
 import json,sys
 ID,name,chk,d,crc,tags=sys.argv[1:7]
-log=open('/tmp/seed/%s.check.log'%ID).read()
-caught=[l.strip() for l in log.splitlines() if l.startswith('  unlisted')][:3]
-notes=open('/tmp/seed/%s.out/notes.md'%ID).read() if True else ''
+log=open('/tmp/seedv/%s.check.log'%ID).read()
+caught=[l.strip()[:400] for l in log.splitlines() if l.startswith('  unlisted')][:3]
 meta={"property":chk,"origin":"independent sub-agent given only the property text and a scratch worktree",
  "needs_to_manifest":"see notes.md (written by the sub-agent)",
- "confirmed":{"existing_suite_with_change":"go test -count=1 ./... -> pass","demo_with_change":"go test %s -run Demo ./%s/ -> FAIL"%(tags,d),"demo_without_change":"same command -> ok"},
+ "confirmed":{"how":"tools/seed_verify.sh on a fresh scratch copy of /repo","existing_suite_with_change":"go test -count=1 ./... -> pass","demo_with_change":"go test %s -run Demo ./%s/ -> FAIL"%(tags.strip(),d),"demo_without_change":"same command -> ok"},
  "demo_package_dir":d,
- "check_command":"VERIF_REPO=<worktree with patch.diff applied> ./check %s   (or: git -C /repo apply seeded/%s/patch.diff; ./check %s; git -C /repo checkout -- .)"%(chk,name,chk),
+ "check_command":"git -C /repo apply /verif/seeded/%s/patch.diff; ./check %s; git -C /repo checkout -- .   (the script used VERIF_REPO=<scratch copy>)"%(name,chk),
  "check_exit_code":int(crc),"detected":int(crc)==1,"caught_by":caught}
 json.dump(meta,open('/verif/seeded/%s/meta.json'%name,'w'),indent=1)
 print("filed seeded/%s detected=%s"%(name,int(crc)==1))
@@ -57,3 +53,4 @@ PY
 else
   echo "NOT CONFIRMED: not filed"
 fi
+rm -rf $W
